@@ -88,6 +88,38 @@ def c02Pointwise (sched : Int → Option (List TimeRange)) (out : List Interval)
   out.findSome? (fun i =>
     (firstBadDay sched i.start i.stop i.kind (daysToCheck i.start i.stop 45 12)).map (·, i))
 
+/-- kind of the last range of a day schedule: the one kind the iterator is extending when it asks for
+the hint (`OH.Model.lastKind`, restated here so that the oracle needs no proof module) -/
+def lastKindOf (rs : List TimeRange) : Kind :=
+  match rs.getLast? with
+  | some r => r.kind
+  | none => .closed
+
+/-- C02, the day-skipping hint (`EnvOK.hint_gt`, `EnvOK.hint_sound` as a test on a GIVEN answer): `h` is
+the day the iterator jumps to from day `d` (`next_change_hint(d)`, or `d + 1` when there is none).  It must
+lie after `d`, and every day strictly between `d` and `h` (before 10000-01-01) must consist of ranges of
+the kind of the last range of day `d`; `days` are the days looked at.  Returns the first day that breaks
+this (`d` itself when `h` is not after `d`). -/
+def c02HintBad (sched : Int → Option (List TimeRange)) (d h : Int) (days : List Int) : Option Int :=
+  if !(d < h) then some d else
+  match sched d with
+  | none => none
+  | some sd =>
+    days.find? (fun d' => decide (d < d') && decide (d' < h) && decide (d' < dateEnd) &&
+      (match sched d' with
+       | some rs => !(rs.all (fun r => r.kind == lastKindOf sd))
+       | none => false))
+
+/-- the days `c02HintBad` looks at for a jump from `d` to `h`: all of them when there are at most `2 * near`,
+else the `near` days after `d`, the `near` days before `h`, and `spread` days in between -/
+def hintDaysToCheck (d h : Int) (near spread : Nat) : List Int :=
+  let n := (h - d - 1).toNat
+  if n ≤ 2 * near + spread then (List.range n).map (fun (i : Nat) => d + 1 + Int.ofNat i)
+  else
+    (List.range near).map (fun (i : Nat) => d + 1 + Int.ofNat i) ++
+    (List.range spread).map (fun (i : Nat) => d + 1 + Int.ofNat near + (Int.ofNat i + 1) * (Int.ofNat n - 2 * Int.ofNat near) / (Int.ofNat spread + 1)) ++
+    (List.range near).map (fun (i : Nat) => h - 1 - Int.ofNat i)
+
 /-- kind the daily schedule `rs` of `t`'s day gives to instant `t` -/
 def kindAtInstant (rs : List TimeRange) (t : Int) : Option Kind := kindAt rs (instMinuteOfDay t)
 
